@@ -58,6 +58,13 @@ inductive Err where
   | valueError | alphabetError | invalidCodon
   deriving DecidableEq, Repr
 
+deriving instance DecidableEq for Except
+
+/-- the IUPAC symbols of a molecular type: canonical characters, gap, degenerate symbols, missing -/
+def subsets : List Char → List (List Char)
+  | [] => [[]]
+  | a :: r => subsets r ++ (subsets r).map (a :: ·)
+
 /-! ## molecular types (tables generated from the source) -/
 
 structure MT where
